@@ -434,10 +434,12 @@ class ValueWrapper(Term):
             or not self.allow_parametrize
         ):
             sql = self.get_value_sql(ctx)
-            return format_alias_sql(sql, self.alias, ctx)
+        else:
+            sql = ctx.parameterizer.create_param(self.value).get_sql(ctx)
 
-        param = ctx.parameterizer.create_param(self.value)
-        return format_alias_sql(param.get_sql(ctx), self.alias, ctx)
+        if ctx.with_alias:
+            return format_alias_sql(sql, self.alias, ctx)
+        return sql
 
 
 class JSON(Term):
@@ -483,7 +485,9 @@ class JSON(Term):
     def get_sql(self, ctx: SqlContext) -> str:
         # the JSON document is inlined as a string literal and must be escaped like one
         sql = ValueWrapper.get_formatted_value(self._recursive_get_sql(self.value), ctx)
-        return format_alias_sql(sql, self.alias, ctx)
+        if ctx.with_alias:
+            return format_alias_sql(sql, self.alias, ctx)
+        return sql
 
     def get_json_value(self, key_or_index: str | int) -> "BasicCriterion":
         return BasicCriterion(
@@ -560,7 +564,9 @@ class LiteralValue(Term):
         self._value = value
 
     def get_sql(self, ctx: SqlContext) -> str:
-        return format_alias_sql(self._value, self.alias, ctx)
+        if ctx.with_alias:
+            return format_alias_sql(self._value, self.alias, ctx)
+        return self._value
 
 
 class NullValue(LiteralValue):
@@ -716,7 +722,9 @@ class Tuple(Criterion):
     def get_sql(self, ctx: SqlContext) -> str:
         element_ctx = ctx.copy(with_alias=False)
         sql = "({})".format(",".join(term.get_sql(element_ctx) for term in self.values))
-        return format_alias_sql(sql, self.alias, ctx)
+        if ctx.with_alias:
+            return format_alias_sql(sql, self.alias, ctx)
+        return sql
 
     @property
     def is_aggregate(self) -> bool | None:  # type:ignore[override]
@@ -754,11 +762,12 @@ class Array(Tuple):
             sql = "[{}]".format(values)
             if ctx.dialect in (Dialects.POSTGRESQL, Dialects.REDSHIFT):
                 sql = "ARRAY[{}]".format(values) if len(values) > 0 else "'{}'"
+        else:
+            sql = ctx.parameterizer.create_param(self.original_value).get_sql(ctx)
 
+        if ctx.with_alias:
             return format_alias_sql(sql, self.alias, ctx)
-
-        param = ctx.parameterizer.create_param(self.original_value)
-        return param.get_sql(ctx)
+        return sql
 
 
 class Bracket(Tuple):
@@ -1004,7 +1013,9 @@ class PeriodCriterion(RangeCriterion):
             start=self.start.get_sql(operand_ctx),
             end=self.end.get_sql(operand_ctx),
         )
-        return format_alias_sql(sql, self.alias, ctx)
+        if ctx.with_alias:
+            return format_alias_sql(sql, self.alias, ctx)
+        return sql
 
 
 class BitwiseAndCriterion(Criterion):
@@ -1355,7 +1366,9 @@ class All(Criterion):
 
     def get_sql(self, ctx: SqlContext) -> str:
         sql = "{term} ALL".format(term=self.term.get_sql(ctx.copy(with_alias=False)))
-        return format_alias_sql(sql, self.alias, ctx)
+        if ctx.with_alias:
+            return format_alias_sql(sql, self.alias, ctx)
+        return sql
 
 
 class CustomFunction:
@@ -1797,4 +1810,6 @@ class AtTimezone(Term):
             interval="INTERVAL " if self.interval else "",
             zone=self.zone,
         )
-        return format_alias_sql(sql, self.alias, ctx)
+        if ctx.with_alias:
+            return format_alias_sql(sql, self.alias, ctx)
+        return sql
